@@ -69,6 +69,7 @@ def op_strategy(client, idx):
         st.tuples(st.just('len')),
         st.tuples(st.just('list')),
         st.tuples(st.just('close')),  # closes the caller's connection; the next call reopens it transparently
+        st.tuples(st.just('expire')),  # removes the expired items (the generated initial state may hold some)
         st.tuples(st.just('open')),  # a further handle is constructed on the directory (and closed again) while the others work
     )
 
@@ -82,35 +83,58 @@ def program_case(draw, max_clients=4, max_calls=4):
         progs.append([draw(op_strategy(c, i)) for i in range(m)])
     init = {}
     for k in KEYS:
-        choice = draw(st.sampled_from(['absent', 'inline', 'file']))
+        # 'expired-*': stored with a time-to-live that has run out before the program starts: absent for every lookup, still a
+        # row (len and iteration show it) until expire() or the lazy cull of somebody's write removes it
+        choice = draw(st.sampled_from(['absent', 'inline', 'file', 'inline', 'file', 'expired-inline', 'expired-file']))
         if choice == 'inline':
             init[k] = ('s', 'init-' + k)
         elif choice == 'file':
             init[k] = ('B', 255 if k == 'x' else 254, 100)
+        elif choice == 'expired-inline':
+            init[k] = ('G', ('s', 'old-' + k))
+        elif choice == 'expired-file':
+            init[k] = ('G', ('B', 251 if k == 'x' else 250, 100))
     if draw(st.booleans()):
-        init['n'] = ('i', 10)
+        init['n'] = draw(st.sampled_from([('i', 10), ('i', 10), ('G', ('i', 10))]))
     schedule = draw(st.lists(st.tuples(st.integers(0, n - 1), st.one_of(st.integers(1, 10), st.sampled_from([14, 20, 30, 50]))), max_size=14))
-    if draw(st.integers(0, 3)) == 0:
+    shaped = draw(st.integers(0, 3)) == 0
+    if shaped:
         # built on purpose: SQLite hands the rowid of a deleted last row to the next insert, so an operation that looked its
         # row up before taking the lock may hit a different key afterwards
         victim = draw(st.sampled_from(['x', 'y']))
         other = 'y' if victim == 'x' else 'x'
-        first = draw(st.sampled_from([('touch', victim, 1000), ('touch', victim), ('pop', victim), ('delete', victim), ('set', victim, ('s', 'c0.0')), ('get', victim), ('getexp', victim)]))
+        first = draw(st.sampled_from([('touch', victim, 1000), ('touch', victim), ('pop', victim), ('delete', victim), ('set', victim, ('s', 'c0.0')), ('get', victim), ('get', victim), ('getitem', victim), ('getexp', victim)]))
         second = [draw(st.sampled_from([('delete', victim), ('pop', victim)])), draw(st.sampled_from([('set', other, ('s', 'c1.1')), ('add', other, ('B', 18, 100)), ('incr', 'n', 1)]))]
         progs = [[first], second] + progs[2:]
+        # ... and the interleaving that matters is built too: client 0 stops after a few of its statements, client 1 runs (most of)
+        # its two calls, client 0 goes on
+        schedule = [(0, draw(st.integers(1, 5))), (1, draw(st.sampled_from([3, 5, 6, 7, 12, 13, 14, 20, 30]))), (0, draw(st.integers(1, 8)))] + schedule[:8]
         init = {k: v for k, v in init.items() if k not in (victim, other)}
-        init[victim] = draw(st.sampled_from([('s', 'init-w'), ('s', 'init-v')]))  # inserted last: highest rowid
+        # inserted last: highest rowid; file-backed victims make a lock-free reader go back to the row after its file vanished
+        init[victim] = draw(st.sampled_from([('s', 'init-w'), ('s', 'init-v'), ('B', 253, 100), ('B', 252, 100)]))
+        if draw(st.integers(0, 2)) == 0:
+            # the victim has expired: writers look at its row, somebody else's expire()/lazy cull removes it, the rowid is reused
+            init[victim] = ('G', init[victim])
+            first = draw(st.sampled_from([('add', victim, ('s', 'c0.0')), ('add', victim, ('B', 1, 100)), ('set', victim, ('s', 'c0.0')), ('touch', victim, 1000), ('get', victim), ('pop', victim)]))
+            second = [draw(st.sampled_from([('expire',), ('expire',), ('set', victim, ('s', 'c1.0'))])), second[1]]
+            progs = [[first], second] + progs[2:]
+    lockfree = shaped and draw(st.booleans())  # the lookups of this configuration take no lock at all
     return {
         'mode': draw(st.sampled_from(['own', 'own', 'shared'])),
-        'statistics': draw(st.booleans()),
-        'policy': draw(st.sampled_from(['least-recently-stored', 'least-recently-used'])),
+        'statistics': False if lockfree else draw(st.booleans()),
+        'policy': 'least-recently-stored' if lockfree else draw(st.sampled_from(['least-recently-stored', 'least-recently-used'])),
         'init': init,
         'progs': progs,
         'schedule': schedule,
     }
 
 
+GHOST = ('G',)  # model value of an item whose time-to-live ran out before the program started
+
+
 def mk(spec):
+    if spec[0] == 'G':
+        return mk(spec[1])
     if spec[0] == 'B':
         return bytes([spec[1]]) * spec[2]
     return spec[1]
@@ -162,6 +186,8 @@ def do_op(cache, op):
             return ('ok', cache.decr(op[1], op[2], retry=True))
         if name == 'close':
             return ('ok', cache.close())
+        if name == 'expire':
+            return ('ok', cache.expire(retry=True))
         if name == 'open':
             shards = getattr(cache, '_count', None)
             extra = type(cache)(cache.directory, timeout=0) if shards is None else type(cache)(cache.directory, shards=shards, timeout=0)
@@ -177,49 +203,65 @@ def do_op(cache, op):
 
 def model_apply(state, call):
     """state: tuple of sorted (key, (spec, has_ttl)).  touch(k, 1000) gives the item a (never reached) expiry time, touch(k)
-    removes it; getexp reports whether the item carries one.  Returns (new_state, ok)."""
+    removes it; getexp reports whether the item carries one.  An item whose spec is GHOST has expired: it is absent for every
+    key-addressed call, still counted by len, and removed by expire() and by the lazy cull of every call that inserts or
+    replaces a row (set always; add, incr and decr when they do not find a live item).  Returns (new_state, ok)."""
     d = dict(state)
     op, res = call.op, call.result
     name = op[0]
     if res == ('exc', 'Timeout'):
         return state, True  # not applied
     k = op[1] if len(op) > 1 else None
+    here = k in d and d[k][0] != GHOST
+
+    def cull():
+        for g in [g for g, v in d.items() if v[0] == GHOST]:
+            del d[g]
+
     if name == 'setbad':
         return state, res[0] == 'exc'  # rejected: no effect
     if name in ('close', 'open'):
         return state, res == ('ok', None)
-    if name == 'set':
+    if name == 'expire':
+        n = sum(1 for v in d.values() if v[0] == GHOST)
+        cull()
+        exp = ('ok', n)
+    elif name == 'set':
         d[k] = (op[2], False)
+        cull()
         exp = ('ok', True)
     elif name == 'add':
-        if k in d:
+        if here:
             exp = ('ok', False)
         else:
             d[k] = (op[2], False)
+            cull()
             exp = ('ok', True)
     elif name == 'get':
-        exp = ('ok', d[k][0] if k in d else MISS)
+        exp = ('ok', d[k][0] if here else MISS)
     elif name == 'getexp':
-        exp = ('ok', ('ttl' if d[k][1] else 'no-ttl') if k in d else MISS)
+        exp = ('ok', ('ttl' if d[k][1] else 'no-ttl') if here else MISS)
     elif name == 'getitem':
-        exp = ('ok', d[k][0]) if k in d else ('exc', 'KeyError')
+        exp = ('ok', d[k][0]) if here else ('exc', 'KeyError')
     elif name == 'pop':
-        exp = ('ok', d.pop(k)[0] if k in d else MISS)
+        exp = ('ok', d.pop(k)[0] if here else MISS)
     elif name == 'delete':
-        exp = ('ok', k in d)
-        d.pop(k, None)
+        exp = ('ok', here)
+        if here:
+            del d[k]
     elif name == 'touch':
-        exp = ('ok', k in d)
-        if k in d:
+        exp = ('ok', here)
+        if here:
             d[k] = (d[k][0], len(op) > 2 and op[2] is not None)
     elif name == 'in':
-        exp = ('ok', k in d)
+        exp = ('ok', here)
     elif name in ('incr', 'decr'):
         delta = op[2] if name == 'incr' else -op[2]
-        if k in d:
+        if here:
             d[k] = (('i', d[k][0][1] + delta), d[k][1])  # a live counter keeps its expiry
         else:
             d[k] = (('i', delta), False)
+            cull()
         exp = ('ok', d[k][0][1])
     elif name == 'len':
         exp = ('ok', len(d))
@@ -229,7 +271,7 @@ def model_apply(state, call):
 
 
 def init_state_of(init):
-    return tuple(sorted((k, (spec, False)) for k, spec in init.items()))
+    return tuple(sorted((k, ((GHOST, True) if spec[0] == 'G' else (spec, False))) for k, spec in init.items()))
 
 
 def op_key(op):
@@ -280,6 +322,7 @@ def check_history(calls, init_state, pid='C05'):
             return (c.op[0] == 'pop' and c.result[0] == 'ok' and c.result[1] != MISS) or (c.op[0] == 'delete' and c.result == ('ok', True))
 
         init_keys = {k for k, _ in init_state}
+        init_live = {k for k, v in init_state if v[0] != GHOST}  # an expired item may be culled by anybody's write at any time
         possible = set(init_keys)
         required = set()
         keys_seen = init_keys | {op_key(c.op) for c in lin if op_key(c.op) is not None}
@@ -288,7 +331,7 @@ def check_history(calls, init_state, pid='C05'):
             rs = [c for c in lin if op_key(c.op) == k and removed(c)]
             if any(w.inv < s.res for w in ws):
                 possible.add(k)
-            anchors = ([None] if k in init_keys else []) + [w for w in ws if w.res < s.inv]
+            anchors = ([None] if k in init_live else []) + [w for w in ws if w.res < s.inv]
             for a_ in anchors:
                 if all((r.inv > s.res) or (a_ is not None and r.res < a_.inv) for r in rs):
                     required.add(k)
@@ -305,6 +348,17 @@ def classify(lin):
     return '+'.join(kinds[:3]) or 'reads'
 
 
+def store_init(env, cache, init):
+    """Store the initial items; those marked expired get a time-to-live of one virtual second, then the clock moves on."""
+    for k, spec in init.items():
+        if spec[0] == 'G':
+            cache.set(k, mk(spec), expire=1.0)
+        else:
+            cache.set(k, mk(spec))
+    if any(spec[0] == 'G' for spec in init.values()):
+        env.cache['seams'].clock.advance(100.0)  # (installed by run_scheduled before the clients are opened)
+
+
 def run_program(env, case, inspect=None):
     """Run the scheduled program; returns (calls, init_state, sched)."""
     import diskcache
@@ -314,8 +368,7 @@ def run_program(env, case, inspect=None):
 
     def open_clients(path):
         base = diskcache.Cache(path, **kw)
-        for k, spec in case['init'].items():
-            base.set(k, mk(spec))
+        store_init(env, base, case['init'])
         if case['mode'] == 'shared':
             return [base] * n, [base]
         caches = [base] + [diskcache.Cache(path, timeout=0) for _ in range(n - 1)]
@@ -379,8 +432,7 @@ class ProcessPrograms(SubCheck):
 
         def setup(path):
             base = diskcache.Cache(path, **kw)
-            for k, spec in case['init'].items():
-                base.set(k, mk(spec))
+            store_init(env, base, case['init'])
             return base
 
         def make_client(path, shared, i):
